@@ -460,7 +460,7 @@ def check_regen(pid, tag, producer, repo):
     except Exception as e:  # translator crash: fail closed
         return {"obligations": 1, "discharged": 0, "units": [], "failed_units": ["translator"],
                 "problems": ["regenerated model (%s): translator failed: %r" % (tag, e)]}
-    res = core.run_coq_jobs(pid + "_regen_" + tag, [(tag, text)], timeout=600)
+    res = core.run_coq_jobs(pid + "_regen_" + tag, [(tag, text)], timeout=3600)
     units = ["%s (line %d)" % (u, l) for _, u, l in obls]
     if res[tag].ok:
         return {"obligations": len(obls), "discharged": len(obls), "units": units, "failed_units": [], "problems": [],
@@ -469,7 +469,7 @@ def check_regen(pid, tag, producer, repo):
     head = text[:text.index("Lemma ")] if "Lemma " in text else text
     lemmas = ["Lemma " + part for part in text.split("Lemma ")[1:]]
     jobs = [("%s_%d" % (tag, i), head + lem) for i, lem in enumerate(lemmas)]
-    r2 = core.run_coq_jobs(pid + "_regen_" + tag + "_split", jobs, timeout=600)
+    r2 = core.run_coq_jobs(pid + "_regen_" + tag + "_split", jobs, timeout=3600)
     failed, problems = [], []
     for i, (name, unit, line) in enumerate(obls):
         r = r2.get("%s_%d" % (tag, i))
